@@ -569,6 +569,10 @@ func ExtendVoucher[T protocol.PublicKeyOrChain](v *Voucher, owner crypto.Signer,
 	if err != nil {
 		return nil, err
 	}
+	// The clone shares its entry list with v: appending in place would write
+	// into spare capacity that an earlier extension of the same voucher may
+	// already be using for its own last entry
+	xv.Entries = slices.Clone(xv.Entries)
 	xv.Entries = append(xv.Entries, *entry)
 	return xv, nil
 }
